@@ -7,10 +7,10 @@
 (*   Open - first access (lazy load; Create with the original settings if  *)
 (*   the schema is gone) - Control - Repair - Control.                     *)
 (* The actions are the code's: the first load and Control compare the SET  *)
-(* of indexed identifiers with the SET of file identifiers; Repair indexes *)
-(* every unindexed file with the values found in the file, drops every     *)
-(* entry whose file is gone, keeps the other entries, touches no file and  *)
-(* does not commit.                                                        *)
+(* of indexed identifiers with the SET of file identifiers; Repair drops    *)
+(* every entry whose file is gone and rebuilds every other entry from the  *)
+(* values found in the file (it used to keep the entries of files already  *)
+(* indexed: fixed, F25), touches no file and does not commit.              *)
 (*                                                                         *)
 (*   ControlIff       corruption is reported iff the sets differ           *)
 (*   RepairConverges  after Repair index and files agree (ids and values)  *)
@@ -55,7 +55,7 @@ Control == /\ phase \in {"loaded", "repaired"}
            /\ report' = IF Diverged(midx) THEN "corrupted" ELSE "ok"
            /\ UNCHANGED <<files, sidx, schema, midx, phase, ndmg>>
 Repair == /\ phase = "loaded"
-          /\ midx' = [u \in DOMAIN files |-> IF u \in DOMAIN midx THEN midx[u] ELSE files[u]]
+          /\ midx' = [u \in DOMAIN files |-> files[u]]
           /\ phase' = "repaired" /\ report' = "none"
           /\ UNCHANGED <<files, sidx, schema, ndmg>>
 
